@@ -751,7 +751,7 @@ func (m *Miner) Build(parent *Node, o BlockOpts) (b *Block, ok bool) {
 var C05Violations = []string{"high-hash", "bits-wrong", "bits-negative", "bits-zero", "bits-overflow", "time-mtp", "time-future", "version-old",
 	"cb-script-short", "cb-script-long", "bad-cb-height", "second-coinbase", "no-coinbase", "non-final-height", "non-final-time",
 	"merkle-dup", "bad-merkle", "witness-commit-wrong", "witness-missing-commit", "witness-nonce-size", "short-block", "empty-vout", "null-prevout",
-	"witness-commit-two", "weight-over", "txcount-huge", "version-old", "forged-parent", "witness-superfluous", "witness-superfluous", "tail-cut"}
+	"witness-commit-two", "weight-over", "txcount-huge", "version-old", "forged-parent", "witness-superfluous", "witness-superfluous", "tail-cut", "noncanonical-size", "noncanonical-size"}
 
 // C05Boundary are mutations that keep the block VALID while sitting on a limit (MutateC05 kinds starting with "ok-").
 var C05Boundary = []string{"ok-witness-commit-two", "ok-weight-exact"}
@@ -1120,6 +1120,33 @@ func (m *Miner) MutateC05(parent *Node, b *Block, kind string, now int64) bool {
 			}
 		}
 		b.RawOverride, b.RawClause = w.Bytes(), "superfluous-witness-record"
+	case "noncanonical-size":
+		// a CompactSize that is not written the shortest way (transaction count, or the length of the coinbase's
+		// input script in a coinbase that travels in witness format, whose txid is computed from its fields):
+		// every hash and commitment of the block is right, the bytes are not a valid serialization
+		raw := b.Bytes()
+		wide := func(v uint64) []byte {
+			switch m.R.Intn(3) {
+			case 0:
+				return []byte{0xfd, byte(v), byte(v >> 8)}
+			case 1:
+				return []byte{0xfe, byte(v), byte(v >> 8), byte(v >> 16), byte(v >> 24)}
+			}
+			return []byte{0xff, byte(v), byte(v >> 8), byte(v >> 16), byte(v >> 24), 0, 0, 0, 0}
+		}
+		if len(b.Txs) >= 0xfd || raw[80] >= 0xfd {
+			return false
+		}
+		at := 80 // the transaction count
+		if m.R.Chance(0.5) && b.Txs[0].HasWitness() {
+			at = 80 + 1 + 4 + 2 + 1 + 36 // ... version, marker+flag, input count, previous output: the script length
+			if raw[at] >= 0xfd || int(raw[at]) != len(b.Txs[0].In[0].ScriptSig) {
+				return false
+			}
+		}
+		out := append([]byte{}, raw[:at]...)
+		out = append(out, wide(uint64(raw[at]))...)
+		b.RawOverride, b.RawClause = append(out, raw[at+1:]...), "non-canonical-compactsize"
 	case "tail-cut":
 		// the last transaction is cut short: everything before it parses
 		if len(b.Txs) < 2 {
